@@ -334,3 +334,28 @@ func vhSameFound(a, b *SearchResults) bool {
 	}
 	return ok
 }
+
+// VH_C06_crash_flag: the removal of a disabled rule is interrupted after an arbitrary
+// number of its storage writes. After reload the rule is either gone (new state) or still
+// there with its disabled flag (old state) — never there and enabled: the interrupted
+// operation must not leave the rule it names in a state no acknowledged history produced.
+func VH_C06_crash_flag(kind int) {
+	e := vhC06New(kind)
+	in := &vhInterp{}
+	rule := vhRule(map[string]interface{}{"a": "?x"}, "act")
+	_, err := e.loc.AddRule(e.ctx, "r1", rule)
+	vassume(err == nil)
+	vassume(e.loc.EnableRule(e.ctx, "r1", false) == nil)
+	e.fs.crashAt = e.fs.calls + vsymInt("crashAfter", 0, 3)
+	e.loc.RemRule(e.ctx, "r1") // interrupted (or not): not asserted
+	env2 := vhC06Reload(e)
+	vhInstallInterp(env2, in)
+	_, gerr := env2.loc.GetRule(env2.ctx, "r1")
+	if gerr == nil {
+		enabled, eerr := env2.loc.RuleEnabled(env2.ctx, "r1")
+		vassert(eerr == nil && !enabled, "interrupted-op-old-or-new")
+		_, cond := env2.loc.ProcessEvent(env2.ctx, Map{"a": "1"})
+		vassert(cond == nil && len(in.execs) == 0, "interrupted-op-old-or-new")
+	}
+	vreach("end")
+}
